@@ -181,8 +181,29 @@ def _run(prop_id, prop, tier, seed, cfg, repo, root, scratch, t0, a):
     replay_dir = os.environ.get("CG_REPLAY_DIR", os.path.join(root, "replays"))
     os.makedirs(replay_dir, exist_ok=True)
     lines = []
+    # every open finding of this property carries a witness (the specific input and world that fail); it is replayed
+    # on every run, so the KNOWN-FINDING line does not depend on the sampled runs happening to hit the defect again
+    witness = {}
+    for e in open_known:
+        if e.get("property") != prop_id or "witness" not in e:
+            continue
+        wpath = os.path.join(scratch, f"witness_{e['id']}.json")
+        with open(wpath, "w") as f:
+            json.dump({"property": prop_id, "check_id": e["check_id"], "case": e["witness"]["case"], "digest": "",
+                       "world": {"pythonhashseed": e["witness"]["pythonhashseed"]}}, f)
+        _, r = replay_file(wpath, repo, root, scratch)
+        witness[e["id"]] = (r.get("status") == "violation" and
+                            match_known([e], prop_id, r.get("check_id"), r.get("sig") or {}) is not None)
+        if witness[e["id"]]:
+            known_hit.setdefault(e["id"], {"entry": e, "n": 0, "example": None})
     for kid, h in sorted(known_hit.items()):
-        lines.append(f"KNOWN-FINDING: property={prop_id} {kid}: {h['entry']['what']} (hit {h['n']}x)")
+        how = f"hit {h['n']}x in the sampled runs"
+        if kid in witness:
+            how = ("witness input still fails; " if witness[kid] else "witness input no longer fails; ") + how
+        lines.append(f"KNOWN-FINDING: property={prop_id} {kid}: {h['entry']['what']} ({how})")
+    for kid, okw in sorted(witness.items()):
+        if not okw and kid not in known_hit:
+            lines.append(f"note: the witness input of known finding {kid} no longer fails on this tree and no sampled run hit it")
     replay_verified = {}
     for key, v in sorted(unknown.items(), key=lambda kv: kv[0]):
         path = os.path.join(replay_dir, f"{prop_id}-{v['rseed']:016x}.json")
@@ -196,12 +217,22 @@ def _run(prop_id, prop, tier, seed, cfg, repo, root, scratch, t0, a):
         ok, info = replay_file(path, repo, root, scratch)
         if not ok and info.get("status") != "violation":
             # the failure needs the history of the interpreter it happened in (state that an earlier call left behind
-            # in the library: a mutated default argument, a module-level memo).  Escalate the replay file: first the
-            # same case executed twice, then the runs that preceded it in its world, regenerated from their seeds.
-            variants = [{"prior_cases": [v["case"]]},
-                        {"prior_runs": {"wseed": v["wseed"], "tier": tier, "js": list(range(max(0, v["j"] - 8), v["j"]))}}]
-            for var in variants:
-                rp2 = dict(rp, history_dependent=True, **var)
+            # in the library: a mutated default argument, a module-level memo, a cache).  Find a form that reproduces
+            # in a fresh interpreter - the minimised or the original case; alone, executed twice, after the runs that
+            # preceded it in its world (regenerated from their seeds) - then minimise prelude and case again, this
+            # time in a pristine interpreter with every candidate in its own fork.
+            forms = []
+            for base in (v["case"], v.get("orig_case")):
+                if base is None:
+                    continue
+                forms.append((base, {}))
+                forms.append((base, {"prior_cases": [base]}))
+                forms.append((base, {"prior_runs": {"wseed": v["wseed"], "tier": tier,
+                                                    "js": list(range(max(0, v["j"] - 8), v["j"]))}}))
+                if v["j"] > 8:
+                    forms.append((base, {"prior_runs": {"wseed": v["wseed"], "tier": tier, "js": list(range(0, v["j"]))}}))
+            for base, var in forms[1:]:
+                rp2 = dict(rp, case=base, history_dependent=bool(var), **var)
                 with open(path, "w") as f:
                     json.dump(rp2, f, indent=1)
                 ok2, info2 = replay_file(path, repo, root, scratch)
@@ -210,15 +241,22 @@ def _run(prop_id, prop, tier, seed, cfg, repo, root, scratch, t0, a):
                     rp2["detail"] = info2.get("detail") or rp2["detail"]
                     with open(path, "w") as f:
                         json.dump(rp2, f, indent=1)
+                    out2 = os.path.join(scratch, "freshmin_out.json")
+                    run_worlds([{"args": ["--fresh-minimise", path], "hashseed": v["hashseed"], "out": out2,
+                                 "kill": 400, "tag": 0}], repo, root, jobs=1)
+                    with open(path) as f:
+                        rp = json.load(f)
                     ok, info = replay_file(path, repo, root, scratch)
-                    rp = rp2
                     break
+            else:
+                with open(path, "w") as f:
+                    json.dump(rp, f, indent=1)
         replay_verified[path] = ok
         rp["replay_verified"] = ok
         with open(path, "w") as f:
             json.dump(rp, f, indent=1)
         lines.append(f"VIOLATION property={prop_id} replay={path}")
-        lines.append(f"  check={v['check_id']} seen={v.get('count', 1)}x replay_verified={ok} :: {v['detail'][:400]}")
+        lines.append(f"  check={v['check_id']} seen={v.get('count', 1)}x replay_verified={ok} :: {(rp.get('detail') or v['detail'])[:400]}")
         rc = 1
     if harness:
         for h in harness[:8]:
